@@ -1,4 +1,5 @@
 //! inject: src/dap/yadap/session/mod.rs
+//! t7: src/dap/yadap/session/mod.rs, src/dap/yadap/session/breakpoint.rs, src/dap/yadap/session/control.rs, src/dap/yadap/session/other.rs, src/dap/yadap/session/frame.rs
 //
 // C12 — sequence numbers 1,2,3,... in wire order, responses echo request_seq / command, nothing is
 // sent after `terminated`.  serde_json is cut at its boundary (T9): protocol::send_event and
@@ -206,6 +207,51 @@ fn c12_seq_and_echo() {
     kani::cover!(rs[0] < 0, "negative request seq is echoed as is");
     kani::cover!(true, "BSV-END");
     std::mem::forget((q1, q2));
+    std::mem::forget(s);
+}
+
+//@ harness: c12_cancelled_request_answered
+//@ property: C12
+//@ obligation: H-C12-a
+//@ tier: quick
+//@ encodes: DebugSession::{consume_cancellation, send_cancelled, send_response_raw}
+//@ symbolic: the request id named by an earlier `cancel` (i64), the seq of the request now being handled (i64)
+//@ bounds: one pending cancellation, one request, handled twice in a row; no progress id (the stackTrace / readMemory / evaluate / disassemble call sites)
+//@ oracle: exactly one response per request: a request whose seq was cancelled is answered exactly once (success = false, request_seq and command echoed) and reported as cancelled to the caller; any other request is not answered here and not reported; the cancellation is consumed (asking again answers nothing)
+//@ stubs: serde_json::to_value::<DapResponse> -> recorder; HashMap/HashSet -> association list (T7, session files)
+//@ unwindset: memcmp=14
+//@ timeout: 1200
+#[kani::proof]
+#[kani::stub(std::backtrace::Backtrace::capture, no_backtrace)]
+#[kani::stub(std::hash::RandomState::new, fixed_random_state)]
+#[kani::stub(crate::dap::yadap::protocol::send_event, stub_send_event)]
+#[kani::stub(serde_json::to_value, stub_to_value)]
+#[kani::unwind(4)]
+fn c12_cancelled_request_answered() {
+    let mut s = new_session();
+    let cancelled: i64 = kani::any();
+    let seq: i64 = kani::any();
+    s.canceled_request_ids.insert(cancelled);
+    let q = mk_req(seq, b'r');
+    let r1 = s.consume_cancellation(&q, None);
+    let (n1, w) = unsafe { (WIRE_N, WIRE) };
+    let hit = seq == cancelled;
+    bsv!(matches!(r1, Ok(c) if c == hit), "the caller is told whether the request was cancelled");
+    if hit {
+        bsv!(n1 == 1, "a cancelled request is answered exactly once, not silently dropped");
+        bsv!(w[0].kind == 1 && w[0].request_seq == seq && !w[0].success && w[0].cmd0 == b'r', "the answer is an error response echoing request_seq and command");
+        bsv!(w[0].seq == 1, "and carries the next sequence number");
+    } else {
+        bsv!(n1 == 0, "a request that was not cancelled is not answered here");
+    }
+    let r2 = s.consume_cancellation(&q, None);
+    bsv!(matches!(r2, Ok(false)), "a cancellation is consumed by the request it names");
+    bsv!(unsafe { WIRE_N } == n1, "nothing further is sent");
+    kani::cover!(hit, "request was cancelled");
+    kani::cover!(!hit, "another request");
+    kani::cover!(true, "BSV-END");
+    std::mem::forget(q);
+    std::mem::forget((r1, r2));
     std::mem::forget(s);
 }
 
